@@ -21,6 +21,10 @@ class ParseError(Exception):
     pass
 
 
+class ForeignSymbol(ParseError):
+    """An identifier used as a plain symbol that is not the display name of any atom of the expression."""
+
+
 _NUM = re.compile(r"\d+(\.\d*)?([eE][+-]?\d+)?|\.\d+([eE][+-]?\d+)?")
 _IDENT = re.compile(r"[A-Za-z_][A-Za-z_0-9]*")
 _OPS = ["<=", ">=", "!=", "==", "+", "-", "*", "/", "^", "(", ")", "[", "]", ",", "=", "<", ">", ".T"]
@@ -230,7 +234,7 @@ class Parser:
                 return ("const", v)
             if self.peek() == ("op", "("):
                 return ("name", v)
-            raise ParseError(f"unknown identifier {v!r} (not a display name of any atom of the expression)")
+            raise ForeignSymbol(f"unknown identifier {v!r} (not a display name of any atom of the expression)")
         if k == "op" and v == "(":
             items = self.args(")")
             if len(items) == 1:
